@@ -118,10 +118,52 @@ fn run_backend(which: &str, ctx: &TypingContext, re: &[(ContextBinding, Identifi
     })
 }
 
-fn emit(out: &mut dyn Write, k: usize, which: &str, ctx: &TypingContext, re: &[(ContextBinding, Identifier)]) {
+fn emit(out: &mut dyn Write, k: usize, from: usize, which: &str, ctx: &TypingContext, re: &[(ContextBinding, Identifier)]) {
+    if k < from { return; }
     let lc = axcut2backend::fresh_labels::fresh_label();
+    // the input is written and flushed BEFORE the code generator runs: if it takes the whole process
+    // down (stack overflow), the supervising parent completes the line with a PANIC output
+    write!(out, "(case {k} ({which} {} {} {lc}) ", dbg(ctx), dbg(&re.to_vec())).unwrap();
+    out.flush().unwrap();
     let res = run_backend(which, ctx, re);
-    writeln!(out, "(case {k} ({which} {} {} {lc}) {res})", dbg(ctx), dbg(&re.to_vec())).unwrap();
+    writeln!(out, "{res})").unwrap();
+}
+
+/// Supervisor: the enumeration runs in a child process (`--worker --from K`); when the child dies
+/// in the middle of a case, that case gets the output `(PANIC "process aborted")` and a new child
+/// continues after it.
+fn supervise(seed: u64, n: usize, out: &mut dyn Write, args: &[String]) {
+    use std::io::{BufRead, BufReader};
+    use std::process::{Command, Stdio};
+    let exe = std::env::current_exe().expect("current_exe");
+    let mut from = 0usize;
+    for _restart in 0..1_000_000 {
+        let mut child = Command::new(&exe)
+            .arg("subst").arg(seed.to_string()).arg(n.to_string()).arg("-")
+            .args(args).arg("--worker").arg("--from").arg(from.to_string())
+            .stdout(Stdio::piped()).stderr(Stdio::null()).spawn().expect("spawn worker");
+        let mut rd = BufReader::new(child.stdout.take().unwrap());
+        let mut buf: Vec<u8> = Vec::new();
+        let mut partial: Option<Vec<u8>> = None;
+        loop {
+            buf.clear();
+            let got = rd.read_until(b'\n', &mut buf).expect("read worker");
+            if got == 0 { break; }
+            if buf.last() == Some(&b'\n') { out.write_all(&buf).unwrap(); from += 1; }
+            else { partial = Some(buf.clone()); }
+        }
+        let status = child.wait().expect("wait worker");
+        if status.success() && partial.is_none() { return; }
+        if let Some(p) = partial {
+            out.write_all(&p).unwrap();
+            out.write_all(b"(PANIC \"process aborted\"))\n").unwrap();
+            from += 1;
+        } else if !status.success() {
+            // died between two cases: nothing to attribute it to; continue after the last complete one
+            eprintln!("subst worker died between cases at {from}");
+            return;
+        }
+    }
 }
 
 /// window offsets per backend: the first variable that is spilled has index `regs`
@@ -141,6 +183,8 @@ fn opt(args: &[String], name: &str, default: usize) -> usize {
 pub fn cmd_subst(seed: u64, n: usize, out: &mut dyn Write, args: &[String]) {
     let which = args.first().map(|s| s.as_str()).unwrap_or("x86").to_string();
     if n == 0 { return; }
+    if !args.iter().any(|a| a == "--worker") { return supervise(seed, n, out, args); }
+    let from = opt(args, "--from", 0);
     let small = opt(args, "--small", 5);
     let stride5 = opt(args, "--stride5", 0);
     let window = opt(args, "--window", 1).max(1);
@@ -173,7 +217,7 @@ pub fn cmd_subst(seed: u64, n: usize, out: &mut dyn Write, args: &[String]) {
                             // padding kinds and id reuse vary deterministically with the shape
                             let pad = [shape_index % 3 == 0, shape_index % 2 == 0, false];
                             let (ctx, re) = build(&shape, &pad, shape_index % 3);
-                            emit(out, k, &which, &ctx, &re);
+                            emit(out, k, from, &which, &ctx, &re);
                             k += 1;
                         }
                     }
@@ -216,7 +260,7 @@ pub fn cmd_subst(seed: u64, n: usize, out: &mut dyn Write, args: &[String]) {
         }
         let shape = Shape { kinds, src, k: 0 };
         let (ctx, re) = build(&shape, &[false], rng.below(3));
-        emit(out, k, &which, &ctx, &re);
+        emit(out, k, from, &which, &ctx, &re);
         k += 1;
     }
 }
